@@ -5,7 +5,7 @@ the demonstration fails with the change and passes without it. Writes /tmp/confi
 import json, os, subprocess, sys, shutil
 ENV = dict(os.environ, GOFLAGS="-mod=mod", GOPROXY="off")
 ENV.pop("GOWORK", None)
-WT = "/tmp/confirm-wt"
+WT = os.environ.get("CONFIRM_WT", "/tmp/confirm-wt")
 S = "-tags sqlite"
 T = [
  ("C01","a","a/demo_test.go","internal/check/seed_demo_a_test.go",f"{S} -run TestSeedDemoIntersectionSharedGroup ./internal/check/"),
